@@ -96,9 +96,12 @@ def queues(ctx):
            and lm_arg(e, 1) == ('work_pool_priv', 'work_items')]
     if not inc or not add:
         raise AnalysisBroken('submit: seq_tail++ or the link into work_items not found')
-    r1 = [x for x in ls.get((inc[0]['_b'], inc[0]['_i']), ()) if x[0] == POOL]
-    r2 = [x for x in ls.get((add[0]['_b'], add[0]['_i']), ()) if x[0] == POOL]
-    ctx.ob('R-C12b', 'submit:seq_tail-with-link', bool(r1) and r1 == r2 and len(inc) == 1 and len(add) == 1, loc=inc[0]['loc'],
+    def region(e):
+        return sorted(x[1] if isinstance(x[1], str) else str(x[1]) for x in ls.get((e['_b'], e['_i']), ()) if x[0] == POOL)
+    r1 = {tuple(region(e)) for e in inc}
+    r2 = {tuple(region(e)) for e in add}
+    once = len({e['loc'] for e in inc}) == 1 and len({e['loc'] for e in add}) == 1
+    ctx.ob('R-C12b', 'submit:seq_tail-with-link', () not in r1 and r1 == r2 and len(r1) == 1 and once, loc=inc[0]['loc'],
            detail='seq_tail++ and iv_list_add_tail(&work->list, &pool->work_items) once each, in one pool-lock region', fn=f.q)
     mp = must_pass(f, lambda e: e in inc)
     ok = all(mp.get((pb, pi), True) for (pb, pi, _) in exits_of(f)) and mp.get((f.exit, 0), True)
